@@ -56,24 +56,32 @@ Definition u64_max : N := 18446744073709551615.
 
 (* Totp::verify.  [ovf] = the crate is built with overflow checks (dev profile): `counter - 1`
    panics at counter 0; otherwise it wraps.  `secs / self.step` panics for step 0.
-   The right operand of `||` is only evaluated when the left one is false. *)
-Definition verify_gen (fx ovf : bool) (a : algo) (d : digits) (key : list N)
-           (step chal secs : N) : outcome :=
+   The right operand of `||` is only evaluated when the left one is false; Totp::digest is pure and
+   total, so the model may compute both digests up front ([d1] for counter, [d2] for the second
+   counter) and keep only the decision logic here — this lets one case share the two HMACs among
+   all its candidate codes. *)
+Definition second_counter (counter : N) : N := if counter =? 0 then u64_max else counter - 1.
+
+Definition verify_core (ovf : bool) (step counter : N) (d1 d2 : dres) (chal : N) : outcome :=
   if step =? 0 then OPanic else
-  let counter := secs / step in
-  let second (_ : unit) : outcome :=
+  let second : outcome :=
     if (counter =? 0) && ovf then OPanic else
-    let c' := if counter =? 0 then u64_max else counter - 1 in
-    match digest_gen fx a d key c' with
+    match d2 with
     | DOk v2 => OBool (v2 =? chal)
     | DErr => OBool false
     | DPanic => OPanic
     end in
-  match digest_gen fx a d key counter with
-  | DOk v1 => if v1 =? chal then OBool true else second tt
-  | DErr => second tt
+  match d1 with
+  | DOk v1 => if v1 =? chal then OBool true else second
+  | DErr => second
   | DPanic => OPanic
   end.
+
+Definition verify_gen (fx ovf : bool) (a : algo) (d : digits) (key : list N)
+           (step chal secs : N) : outcome :=
+  let counter := secs / step in
+  verify_core ovf step counter
+    (digest_gen fx a d key counter) (digest_gen fx a d key (second_counter counter)) chal.
 
 (* The tree under check: /repo carries the fix "TOTP secrets longer than the HMAC block must be
    hashed, not refused" (fixes/C29.patch), so the secret goes to HMAC whatever its length.
@@ -109,22 +117,33 @@ Definition outcome_eqb (x y : outcome) : bool :=
   | _, _ => false
   end.
 
-(* one call Totp::new(key, step, algo, digits).verify(chal, Duration::new(secs, nanos));
-   [ovf] records the build (cfg!(debug_assertions) of the harness profile), [out] what happened *)
+(* one token Totp::new(key, step, algo, digits) at one time Duration::new(secs, nanos), and for
+   each candidate code [chal] what the call verify(chal, time) did: [obs] = list of (chal, outcome).
+   [ovf] records the build (cfg!(debug_assertions) of the harness profile). *)
 Inductive case :=
-  CV (ovf : bool) (a : algo) (d : digits) (key : list N) (step chal secs nanos : N) (out : outcome).
+  CV (ovf : bool) (a : algo) (d : digits) (key : list N) (step secs nanos : N)
+     (obs : list (N * outcome)).
 
+(* = forall (chal, out) in obs, verify ovf a d key step chal secs = out  (Proofs.agree_iff) *)
 Definition agree (c : case) : bool :=
-  match c with CV ovf a d key step chal secs _ out =>
-    outcome_eqb (verify ovf a d key step chal secs) out end.
+  match c with CV ovf a d key step secs _ obs =>
+    let counter := secs / step in
+    let d1 := digest_gen tree_fixed a d key counter in
+    let d2 := digest_gen tree_fixed a d key (second_counter counter) in
+    forallb (fun co => outcome_eqb (verify_core ovf step counter d1 d2 (fst co)) (snd co)) obs
+  end.
 
-(* the property, on the implementation's answer: for a positive step and a time at least one
-   step after the epoch, accepted exactly when the code is the RFC 6238 code of the current or
-   of the previous step.  Outside those hypotheses the property says nothing. *)
+(* the property, on the implementation's answers: for a positive step and a time at least one
+   step after the epoch, a code is accepted exactly when it is the RFC 6238 code of the current or
+   of the previous step (= forall (chal, out) in obs, out = OBool (accept_spec .. chal secs),
+   Proofs.pcheck_iff).  Outside those hypotheses the property says nothing. *)
 Definition pcheck (c : case) : bool :=
-  match c with CV _ a d key step chal secs _ out =>
+  match c with CV _ a d key step secs _ obs =>
     if (0 <? step) && (step <=? secs)
-    then outcome_eqb out (OBool (accept_spec a d key step chal secs))
+    then
+      let c1 := rfc_totp a d key step secs in
+      let c2 := rfc_totp a d key step (secs - step) in
+      forallb (fun co => outcome_eqb (snd co) (OBool ((fst co =? c1) || (fst co =? c2)))) obs
     else true end.
 
 (* no recorded finding: the long-secret defect is fixed in /repo *)
